@@ -456,7 +456,9 @@ func init() {
 		Rule: "E1: breadth-first search over real HTTP requests pushed through the composed application (states = canonicalised database + per-browser jars + oracle memory); every transition that changes a session's user must be justified by ground truth; classes = distinct justification kinds and rejected-attempt kinds hit",
 		Units: func(tier string) []engine.Unit {
 			scs := c01Scenarios(tier)
-			return e1Units(append(scs, configVariants(scs, tier, "nil-state", "err500", "nomount")...))
+			vs := configVariants(scs, tier, "nil-state", "err500", "nomount")
+			vs = append(vs, configVariants(scs[1:], tier, "faults")...)
+			return e1Units(append(scs, vs...))
 		},
 		Assumptions: []string{
 			"storer with database semantics, client-state stores with documented event semantics, deterministic crypto/rand, virtual clock (harness, DESIGN.md 2)",
